@@ -16,8 +16,9 @@ PER_SHARD = 8
 LEVEL_TEXT = ("Coq theorems over a Gallina model of Zeroconf::handle_query (all question lists, known-answer lists, "
               "service tables, rename maps, interfaces, source addresses and ports): the model's response equals, as "
               "multisets per section with destination, id, flags and echoed questions, a specification written from "
-              "the property text extended by six named deviations; outside the deviation classes it equals the text "
-              "itself; each deviation is proved to be one by a witness.  The model is tied to the Rust on every run by "
+              "the property text extended by the two named deviations that remain (four were repaired in /repo and "
+              "are now part of the positive theorems); outside the deviation classes it equals the text itself; each "
+              "deviation is proved to be one by a witness.  The model is tied to the Rust on every run by "
               "regenerated constants/guards (Gen/ParamsResponder.v) and by a differential run of the real daemon in "
               "the simulated world (injected queries, captured packets parsed independently); the checker chk_C06 of "
               "the theorems is executed on the implementation's packets")
@@ -29,7 +30,11 @@ RULE = ("histories of 1-3 interfaces (v4, v6, both; differing subnets), 1-4 serv
         "still probing / renamed by an injected conflict, and 6-14 injected queries each (PTR on type, subtype, "
         "meta; SRV, TXT, ANY, A, AAAA on instance and host names in mixed case; unknown names; known answers with "
         "TTL half-1, half, half+1, full; port 5353 and other ports; v4 and v6; wrong family / unknown interface). "
-        "One case = one history; non-trivial = at least one query got a response; distinct = distinct histories")
+        "One case = one history; non-trivial = at least one query got a response; distinct = distinct histories.  "
+        "Plus a model-free family (non-ASCII case mapping is outside the model): services whose instance and host "
+        "names contain non-ASCII cased letters, asked for in exactly the registered spelling (SRV, TXT, ANY on the "
+        "instance; A, AAAA, ANY on the host): the projection demands exactly the right record types under the "
+        "asked owner name")
 TRUSTED = [
     "Coq 8.16.1 kernel (coqc); vm_compute only in the witnesses of the ..._refuted theorems and the non-vacuity Example",
     "axioms: none (Print Assumptions: Closed under the global context for every theorem)",
@@ -44,8 +49,9 @@ TRUSTED = [
     "modelled, not verified: decoding of the query is Model/Wire.v (C01); encoding of the response is the crate's "
     "(C02); the size limit of to_packets is not modelled (responses stay far below 8972 bytes)",
 ]
-PARTIAL = ("Six deviations of the code from the text are findings (known/C06.json); for them the theorems state what the "
-           "code does instead.  Service-type names are matched exactly (the text demands case-insensitivity for "
+PARTIAL = ("Two deviations of the code from the text are findings (known/C06.json: subtype answer, transport family); "
+           "for them the theorems state what the code does instead.  Names with non-ASCII cased letters are outside "
+           "the model (ASCII case folding only) and covered by a model-free family in exactly the registered spelling.  Service-type names are matched exactly (the text demands case-insensitivity for "
            "instance and host names only).  The text is silent on additionals of SRV answers; the spec admits the "
            "address records RFC 6763 12.2 recommends, for SRV questions.  Which of several same-family addresses of "
            "the interface the packet leaves from is not observed.  Known-answer suppression uses the crate's record "
@@ -306,7 +312,89 @@ def gen_history(rng, hid, forced=None):
 
 def generate(rng, tier):
     n = 2500 if tier == "quick" else 40000
-    return [Case(jdump(gen_history(rng, "c06-%d" % i)), "history") for i in range(n)]
+    m = 300 if tier == "quick" else 3000
+    return ([Case(jdump(gen_history(rng, "c06-%d" % i)), "history") for i in range(n)]
+            + [Case(jdump(gen_nonascii(rng, "na-%d" % i)), "nonascii") for i in range(m)])
+
+
+# --------------------------------------------------------------------------- model-free family: non-ASCII names
+# Case mapping of non-ASCII letters is outside the Coq model (Base/Bytes.v lower-cases ASCII only), so names with
+# non-ASCII cased letters are kept out of the modelled histories.  This family registers services whose instance
+# and host names contain such letters and asks for them in EXACTLY the registered spelling: whatever the daemon does
+# about case, an exact-spelling question must be answered with the right record types under the right owner.  The
+# expectation is computed here (projection); the model line is the constant "NA ok".
+
+NA_INST = ["ÉCOLE Ñandú", "Çà et LÀ", "ÄÖÜ printer", "Ωmega Σ", "ПРИНТЕР 7", "İstanbul", "straße ẞ"]
+NA_HOST = ["HÔTE-É.local.", "Ñandú-box.local.", "ÜBER.local.", "СЕРВЕР.local."]
+
+
+def is_na(line):
+    return line.startswith('{"id":"na-')
+
+
+def gen_nonascii(rng, hid):
+    ifaces = [{"name": "eth0", "index": 2, "addr": "192.168.1.10", "mask": "255.255.255.0"}]
+    v6 = rng.random() < 0.5
+    if v6:
+        ifaces.append({"name": "eth0", "index": 2, "addr": "fd00:1::10", "mask": "ffff:ffff:ffff:ffff::"})
+    svcs = []
+    for k in range(rng.choice([1, 2])):
+        ips = "192.168.1.10" + (",fd00:1::10" if v6 else "")
+        svcs.append({"ty": rng.choice(["_http._tcp.local.", "_ipp._tcp.local."]),
+                     "name": rng.choice(NA_INST) + ("" if k == 0 else " %d" % k), "host": rng.choice(NA_HOST),
+                     "ips": ips, "port": 8000 + k, "props": [["6b", "76"]], "probe": rng.random() < 0.5})
+    steps = [{"t": T0, "d": 0, "calls": [{"op": "register", "svc": s} for s in svcs]},
+             {"run_until": T0 + 4000}, {"t": T0 + 4001, "d": 0}, {"run_until": T0 + 5500}, {"t": T0 + 5501, "d": 0}]
+    t = T0 + 5501
+    for s in svcs:
+        full = svc_fullname(s)
+        for name, ty in [(full, 33), (full, 16), (full, 255), (s["host"], 1), (s["host"], 255)] + ([(s["host"], 28)] if v6 else []):
+            if rng.random() < 0.75:
+                t += 10
+                v4 = (not v6) or rng.random() < 0.6
+                p = dnsgen.Packet(compress=rng.random() < 0.7)
+                p.question(name, ty)
+                port = 5353 if rng.random() < 0.8 else 40001
+                src = ("192.168.1.%d:%d" % (rng.randrange(20, 200), port)) if v4 else ("[fd00:1::%x]:%d" % (rng.randrange(0x20, 0xfff), port))
+                steps.append({"t": t, "d": 0, "dgrams": [{"if": 2, "v4": v4, "src": src,
+                                                          "hex": p.finish(flags=0, ident=rng.choice([0, 77])).hex()}]})
+    return {"id": hid, "t0": T0, "daemons": [{"seed": rng.randrange(1, 1000), "ifaces": ifaces}], "link": "none",
+            "steps": steps}
+
+
+def project_na(line, raw):
+    h = json.loads(line)
+    res = json.loads(raw)
+    if "error" in res:
+        return "NA harness-error"
+    svcs = [c["svc"] for c in h["steps"][0]["calls"]]
+    v6 = any(":" in e["addr"] for e in h["daemons"][0]["ifaces"])
+    bad = []
+    n = 0
+    for st, rec in align(h, res):
+        if "run_until" in st or not st.get("dgrams") or rec is None:
+            continue
+        g = st["dgrams"][0]
+        n += 1
+        q = dnsgen.parse_packet(bytes.fromhex(g["hex"]))["q"][0]
+        qname, qty = dnsgen.dotted(q[0]), q[1]
+        want = set()
+        for s in svcs:
+            if qname == svc_fullname(s).encode():
+                want |= {(qname, t) for t in ((33,) if qty == 33 else (16,) if qty == 16 else (33, 16))}
+            if qname == s["host"].encode():
+                if qty in (1, 255):
+                    want.add((qname, 1))
+                if qty in (28, 255) and v6:
+                    want.add((qname, 28))
+        got = set()
+        pkts = [pk for x, pk in parsed_sent(rec) if pk is not None and (pk["flags"] & 0x8000)]
+        for pk in pkts:
+            for rr in pk["an"]:
+                got.add((dnsgen.dotted(rr["name"]), rr["type"]))
+        if got != want or len(pkts) != (1 if want else 0):
+            bad.append("q%d:%s/%d want=%s got=%s" % (n, hx(qname), qty, sorted(t for _, t in want), sorted(t for _, t in got)))
+    return "NA ok" if not bad else "NA bad " + " ".join(bad)
 
 
 # --------------------------------------------------------------------------- observation / model input
@@ -344,6 +432,8 @@ def _walk(line, raw):
 
 
 def project(line, raw):
+    if is_na(line):
+        return project_na(line, raw)
     outs = []
     for grp, nc, svcs, g, rec in _walk(line, raw):
         resp = [packet_tok(x, pk) for x, pk in parsed_sent(rec) if pk is None or (pk["flags"] & 0x8000)]
@@ -352,6 +442,8 @@ def project(line, raw):
 
 
 def model_input(line, raw):
+    if is_na(line):
+        return "na"
     toks = ["c06"]
     for grp, nc, svcs, g, rec in _walk(line, raw):
         toks += ["Q", myintf_tok(grp) if grp else "0/-/-", nc, svcs, src_tok(g["src"]), g["hex"]]
@@ -359,7 +451,7 @@ def model_input(line, raw):
 
 
 def nontrivial(line, result):
-    return "dest=" in result
+    return "dest=" in result or result == "NA ok"
 
 
 def known_class(line, impl, mon):
@@ -390,6 +482,15 @@ except Exception:
 
 def shrink(line, still_bad):
     """drops query steps, then services, never the settling runs"""
+    if is_na(line):
+        h = json.loads(line)
+        qs = [i for i, st in enumerate(h["steps"]) if st.get("dgrams")]
+        for i in reversed(qs):
+            hh = dict(h)
+            hh["steps"] = h["steps"][:i] + h["steps"][i + 1:]
+            if still_bad(jdump(hh)):
+                h = hh
+        return jdump(h)
     h = json.loads(line)
     changed = True
     tries = 0
